@@ -9,7 +9,7 @@
 From Coq Require Import ZArith List PArith.
 Import ListNotations.
 From PV Require Import Exchange.Arith Exchange.Split Exchange.Fulfill Exchange.Settle Exchange.SettleSpec
-  Proofs.SplitProofs Proofs.FulfillProofs Proofs.SettleProofs
+  Proofs.ArithProofs Proofs.SplitProofs Proofs.FulfillProofs Proofs.SettleProofs
   Proofs.FulfillSteps Proofs.FulfillShape Proofs.FulfillSums
   Proofs.SettleRefine Proofs.SettleFills Proofs.SettleHistory.
 Open Scope Z_scope.
@@ -262,6 +262,15 @@ Theorem C01_settle_refines_spec : forall cfg st askids bidids e st',
     store_ok (st_orders st').
 Proof. exact settle_refine. Qed.
 Print Assumptions C01_settle_refines_spec.
+
+(** ... where the exchange's share is the ceiling of total * split / 10000 and never more than
+    the total (for a split between 0 and 10000 basis points). *)
+Theorem C01_exchange_share_is_ceiling : forall cfg ps d,
+  0 <= fees_total ps d -> 0 <= get_split cfg d <= 10000 ->
+  let x := exchange_share cfg ps d in
+  10000 * (x - 1) < fees_total ps d * get_split cfg d <= 10000 * x /\ 0 <= x <= fees_total ps d.
+Proof. exact (fun cfg ps d => ArithProofs.exchange_split_ceiling (fees_total ps d) (get_split cfg d)). Qed.
+Print Assumptions C01_exchange_share_is_ceiling.
 
 (** An accepted FillBids: the same specification, with the seller as one more party: it hands
     over the total assets, receives the total price and pays its flat fee plus the ratio fees. *)
